@@ -743,7 +743,17 @@ class C13(Check):
         else:
             rcase = case
             rdeck = deck_text(case, cp_body(ref) if case["kind"] == "cp" else bc_body(case), dims, actnum=False)
-        gr = P.call("grid_actnum", deck=rdeck, route=route, actnum=[0 if c in ina else 1 for c in range(n)])["grid"]
+        final_mask = [0 if c in ina else 1 for c in range(n)]
+        extra = {}
+        if route in ("reset", "copy") and 0 < len(ina) < n and (case.get("nx", 0) + len(ina)) % 2 == 0:
+            # the volume cache is filled under ANOTHER mask with the same number of active cells (the final one rotated)
+            k_ = 1
+            while k_ < n and final_mask[k_:] + final_mask[:k_] == final_mask:
+                k_ += 1
+            if k_ < n:
+                extra["actnum0"] = final_mask[k_:] + final_mask[:k_]
+                ctx.label("actroute:cache-filled-under-same-count-mask")
+        gr = P.call("grid_actnum", deck=rdeck, route=route, actnum=final_mask, **extra)["grid"]
         self.check_indices(rcase, dims, gr, "activity via " + route)
         act_r = gr["active_index"]
         for c in range(n):
